@@ -2,7 +2,7 @@
     every run) are the hand-written model (Model/Mill.v) that the C13 theorems are about: for every carrier,
     every recipe and every input. *)
 From Coq Require Import List Arith Lia Bool.
-Require Import QV.Common.Outcome QV.Common.AlignAlg QV.Common.AlignAlgFacts QV.Model.Mill QV.Model.MillOps QV.Gen.MillGen QV.Proofs.Mill.
+Require Import QV.Common.Outcome QV.Common.AlignAlg QV.Common.AlignAlgFacts QV.Model.Mill QV.Model.MillOps QV.Model.MillLoop QV.Gen.MillGen QV.Proofs.Mill.
 Import ListNotations.
 
 Section GenProofs.
@@ -36,4 +36,116 @@ Qed.
 
 Theorem gen_datom_is_model (m : mill K) mu p : gen_datom m mu p = datom m mu p.
 Proof. destruct mu as [[mx my] mz]. reflexivity. Qed.
+
+(** ---- the atom loop of align_vector_gradient: the translated method (loop over range(nat) threading the zero-initialised
+    (3, 3*nat) result through index read / slice reads / rotation / slice stores, stopping at the first exception) is
+    the model (error scan first, then the rows as flat_maps), for every input whose three rows have one length 3*nat ---- *)
+Definition vg_cells (a : nat) (D : mat3 K) : list K := [ment D a 0%nat; ment D a 1%nat; ment D a 2%nat].
+Definition vg_row (m : mill K) (mu : list K * list K * list K) (a k : nat) : list K :=
+  flat_map (vg_cells a) (map (fun at' => datom m mu (nth at' (amap m) O)) (seq 0 k)).
+
+Lemma vg_cells_length a (l : list (mat3 K)) : length (flat_map (vg_cells a) l) = (3 * length l)%nat.
+Proof. induction l as [|D l IH]; simpl in *; [reflexivity | rewrite IH; lia]. Qed.
+
+Lemma vg_row_length m mu a k : length (vg_row m mu a k) = (3 * k)%nat.
+Proof. unfold vg_row. rewrite vg_cells_length, map_length, seq_length. reflexivity. Qed.
+
+Lemma vg_row_S m mu a k :
+  vg_row m mu a (S k) = vg_row m mu a k ++ vg_cells a (datom m mu (nth k (amap m) O)).
+Proof.
+  unfold vg_row. rewrite seq_S, map_app, flat_map_app. simpl. reflexivity.
+Qed.
+
+Lemma store3_next (pre : list K) (k j : nat) (v : vec3 K) :
+  length pre = (3 * k)%nat ->
+  store3 (pre ++ zeros (3 * S j)) k v = (pre ++ [comp v 0; comp v 1; comp v 2]) ++ zeros (3 * j).
+Proof.
+  intros L. destruct v as [[a b] c]. unfold store3. simpl comp.
+  rewrite firstn_app, L, Nat.sub_diag, firstn_O, app_nil_r.
+  rewrite <- L, firstn_all.
+  rewrite skipn_app. rewrite L.
+  replace (3 * k + 3 - 3 * k)%nat with 3%nat by lia.
+  rewrite (skipn_all2 pre) by lia.
+  replace (3 * S j)%nat with (3 + 3 * j)%nat by lia. unfold zeros. simpl.
+  rewrite <- app_assoc. reflexivity.
+Qed.
+
+Lemma mrow_cells (D : mat3 K) a : (a < 3)%nat ->
+  [comp (mrow D a) 0; comp (mrow D a) 1; comp (mrow D a) 2] = vg_cells a D.
+Proof. intros _. reflexivity. Qed.
+
+Definition vg_body (m : mill K) (mx my mz : list K) : nat -> rows3 -> outcome rows3 :=
+  fun at' al_mu =>
+    obind (amap_at m at') (fun p =>
+    obind (slice3o mx p) (fun d0 =>
+    obind (slice3o my p) (fun d1 =>
+    obind (slice3o mz p) (fun d2 =>
+    let D := (d0, d1, d2) in
+    let D := (mmul (mtrans (rot m)) (mmul D (rot m))) in
+    let '(a0, a1, a2) := al_mu in
+    Ok (store3 a0 at' (mrow D 0), store3 a1 at' (mrow D 1), store3 a2 at' (mrow D 2)))))).
+
+Definition vg_state (m : mill K) (mu : list K * list K * list K) (k j : nat) : rows3 :=
+  (vg_row m mu 0 k ++ zeros (3 * j), vg_row m mu 1 k ++ zeros (3 * j), vg_row m mu 2 k ++ zeros (3 * j)).
+
+Lemma vg_body_step (m : mill K) (mx my mz : list K) (n k j : nat) :
+  length mx = (3 * n)%nat -> length my = (3 * n)%nat -> length mz = (3 * n)%nat ->
+  vg_body m mx my mz k (vg_state m (mx, my, mz) k (S j)) =
+  match nth_error (amap m) k with
+  | None => Err PyIndexError
+  | Some i => if Nat.ltb i n then Ok (vg_state m (mx, my, mz) (S k) j) else Err PyValueError
+  end.
+Proof.
+  intros Lx Ly Lz. unfold vg_body, amap_at.
+  destruct (nth_error (amap m) k) as [i|] eqn:E; [|reflexivity].
+  cbn [obind]. unfold slice3o. rewrite Lx, Ly, Lz.
+  destruct (Nat.ltb i n) eqn:Hi.
+  - apply Nat.ltb_lt in Hi.
+    assert (Hle : Nat.leb (3 * i + 3) (3 * n) = true) by (apply Nat.leb_le; lia).
+    rewrite Hle. cbn [obind]. cbv zeta. unfold vg_state.
+    assert (Hn : nth k (amap m) O = i) by (apply nth_error_nth; exact E).
+    assert (HD : mmul (mtrans (rot m)) (mmul (slice3 mx i, slice3 my i, slice3 mz i) (rot m)) = datom m (mx, my, mz) (nth k (amap m) O))
+      by (rewrite Hn; reflexivity).
+    rewrite HD.
+    rewrite !store3_next by apply vg_row_length.
+    rewrite !mrow_cells by lia.
+    rewrite <- !vg_row_S. reflexivity.
+  - apply Nat.ltb_ge in Hi.
+    assert (Hle : Nat.leb (3 * i + 3) (3 * n) = false) by (apply Nat.leb_gt; lia).
+    rewrite Hle. reflexivity.
+Qed.
+
+Lemma vg_loop_spec (m : mill K) (mx my mz : list K) (n : nat) :
+  length mx = (3 * n)%nat -> length my = (3 * n)%nat -> length mz = (3 * n)%nat ->
+  forall j k, (k + j = n)%nat ->
+  for_range_from k j (vg_body m mx my mz) (vg_state m (mx, my, mz) k j)
+  = match vg_scan n (seq k j) (amap m) with
+    | Some e => Err e
+    | None => Ok (vg_row m (mx, my, mz) 0 n, vg_row m (mx, my, mz) 1 n, vg_row m (mx, my, mz) 2 n)
+    end.
+Proof.
+  intros Lx Ly Lz. induction j as [|j IH]; intros k Hk.
+  - unfold vg_state. simpl. rewrite !app_nil_r. replace k with n by lia. reflexivity.
+  - cbn [seq vg_scan for_range_from]. rewrite (vg_body_step m mx my mz n k j Lx Ly Lz).
+    destruct (nth_error (amap m) k) as [i|]; [|reflexivity].
+    destruct (Nat.ltb i n); [|reflexivity].
+    cbn [obind]. apply IH. lia.
+Qed.
+
+Theorem gen_align_vector_gradient_is_model (m : mill K) (mu : list K * list K * list K) :
+  let '(mx, my, mz) := mu in
+  length my = length mx -> length mz = length mx -> length mx = (3 * (length mx / 3))%nat ->
+  gen_align_vector_gradient m mu = align_vector_gradient m mu.
+Proof.
+  destruct mu as [[mx my] mz]. intros Ly Lz Lx.
+  unfold gen_align_vector_gradient, align_vector_gradient, for_range. cbv zeta.
+  set (n := (length mx / 3)%nat) in *.
+  assert (Hc : (Nat.eqb (length mx) (3 * n) && Nat.eqb (length my) (3 * n) && Nat.eqb (length mz) (3 * n)) = true).
+  { rewrite Ly, Lz, <- Lx, Nat.eqb_refl. reflexivity. }
+  rewrite Hc. cbn [negb].
+  pose proof (vg_loop_spec m mx my mz n Lx (eq_trans Ly Lx) (eq_trans Lz Lx) n 0%nat eq_refl) as H.
+  unfold vg_state, vg_body in H. change (vg_row m (mx, my, mz) 0 0) with (@nil K) in H.
+  change (vg_row m (mx, my, mz) 1 0) with (@nil K) in H. change (vg_row m (mx, my, mz) 2 0) with (@nil K) in H.
+  cbn [app] in H. rewrite H. destruct (vg_scan n (seq 0 n) (amap m)); reflexivity.
+Qed.
 End GenProofs.
